@@ -51,6 +51,7 @@ var accelShapes = []string{
 	`(?:abcdefgh|abcdefgx)y`, `(?:abcdefghij|abcdefghix)k`, `(?i)abcdefghijk`, `(?i:abcdefghi|abcdefghx)z`, `.abcdefgh`, `.abcdefghijk`, `[ab]abcdefghi\d`, `\w\dabcdefghij`,
 	`[ab][cd][xy][ab]z`, `[ab][cd][xy][ab][cd]`, `(?:(?:(?:(?:(?:(?:(?:(?:(?:(?:(?:(?:(?:(?:(?:(?:(?:(?:(?:(?:(?:(?:(?:(?:(?:(?:(?:(?:(?:(?:(?:(?:(?:(?:ab))))))))))))))))))))))))))))))))))c`,
 	`.aa`, `[^x]aba`, `..abab`, `.éé`, `[ab]aa\d`, `(?i).aa`,
+	`(?:ab)*c`, `(ab)?c`, `(?:ab){0,3}c`, `(?:ab)+c`, `(?:ab){2}c`, `(?:[ab]c)*d`, `(?:a|b)*c`, `(?=ab)a?b`,
 	`abab`, `abca\d`, `abab\w`, `aba`, `abcab`, `(?i)abab`,
 	`[ab]{25}c`, `[ab]{21}cd`, `\w{22}x`, `[a-c]{30}`, `a{25}b`, `[a-z]+(?:@|\d+)[a-z]+(?:\.|,)[a-z]+`, `\w+(?:-|\s+)\w+(?:=|\d)\w+`, `[a-z]+(?:x|[0-9]{2})[a-z]+(?:;|y+)z`,
 	`\bab`, `\Bab`, `a{3}`, `a{2,}b`, `(?:ab){2}`, `(?:ab*){2}`, `(ab*)+c`, `[a-c]{2}d`, `é+a`, `a😀b`,
@@ -393,7 +394,7 @@ func hasPrefixFold(text, prefix []rune, ci bool) bool {
 
 // legFacts: every published compile-time fact is true at every position where the pattern really matches.
 func legFacts(c *Ctx) {
-	c.Rule("patterns: FindMode shapes x {LTR,RTL} x {code-gen analysis off,on}, random ASTs, harvested patterns; for every string up to length 4 (quick; 5 thorough, sampled when large) over the pattern alphabet plus random longer strings, at EVERY position where a single anchored attempt (hook) succeeds, check: MinRequiredLength, MaxPossibleLength, LeadingAnchor, TrailingAnchor, LeadingPrefix, LeadingPrefixes, FixedDistanceLiteral, FixedDistanceSets, LiteralAfterLoop, first-char set (FcPrefix), Boyer-Moore prefix, legacy Anchors; non-trivial = a successful attempt with at least one non-default fact (distinct by pattern,options,input,position)")
+	c.Rule("patterns: FindMode shapes x {LTR,RTL} x {code-gen analysis off,on}, random ASTs, harvested patterns; for every string up to length 4 (quick; 5 thorough, sampled when large) over the pattern alphabet plus random longer strings, at EVERY position where a single anchored attempt (hook) succeeds, check: MinRequiredLength, MaxPossibleLength, LeadingAnchor, TrailingAnchor, LeadingPrefix, LeadingPrefixes, FixedDistanceLiteral, FixedDistanceSets, LiteralAfterLoop, first-char set (FcPrefix), Boyer-Moore prefix, legacy Anchors, the exported FindStartingLiteral of the tree; non-trivial = a successful attempt with at least one non-default fact (distinct by pattern,options,input,position)")
 	pats := shapePatterns(c.Rng)
 	pats = append(pats, genPatterns(c.Rng, c.N(400, 8000), true)...)
 	for _, h := range harvestedPatterns() {
@@ -409,6 +410,11 @@ func legFacts(c *Ctx) {
 		fo := code.FindOptimizations
 		if fo == nil {
 			continue
+		}
+		// the exported "guaranteed starting literal" of the parsed tree (consumed by external code generators)
+		var startLit *syntax.StartingLiteral
+		if tr, perr := syntax.Parse(p.pat, syntax.ParseOptions{RegexOptions: syntax.RegexOptions(toRegexOptions(p.o))}); perr == nil && !p.o.RTL {
+			startLit = tr.Root.FindStartingLiteral()
 		}
 		al := p.alpha
 		if len(al) > 5 {
@@ -555,6 +561,18 @@ func legFacts(c *Ctx) {
 						chk("FixedDistanceSets.Range", true, (x >= fs.Range.First && x <= fs.Range.Last) != fs.Negated)
 					}
 				}
+				if startLit != nil {
+					ok := false
+					switch {
+					case len(startLit.String) > 0:
+						ok = hasPrefixFold(ahead, startLit.String, false)
+					case len(startLit.SetChars) > 0:
+						ok = len(ahead) > 0 && containsRune(startLit.SetChars, ahead[0]) != startLit.Negated
+					default:
+						ok = len(ahead) > 0 && (ahead[0] >= startLit.Range.First && ahead[0] <= startLit.Range.Last) != startLit.Negated
+					}
+					chk("StartingLiteral", true, ok)
+				}
 				if lal := fo.LiteralAfterLoop; lal != nil && lal.LoopNode != nil {
 					// some run of loop-set characters from the attempt position is followed by the literal
 					ok := false
@@ -659,7 +677,7 @@ func legFacts(c *Ctx) {
 		}
 	}
 	for _, f := range []string{"MinRequiredLength", "MaxPossibleLength", "LeadingAnchor", "TrailingAnchor", "LeadingPrefix", "LeadingPrefixes", "FixedDistanceChar",
-		"FixedDistanceString", "FixedDistanceSets", "LiteralAfterLoop", "LandmarkChain", "FcPrefix", "BmPrefix", "Anchors.Beginning", "Anchors.Start", "LeadingChar_RightToLeft"} {
+		"FixedDistanceString", "FixedDistanceSets", "LiteralAfterLoop", "StartingLiteral", "LandmarkChain", "FcPrefix", "BmPrefix", "Anchors.Beginning", "Anchors.Start", "LeadingChar_RightToLeft"} {
 		c.Gate("fact "+f+" checked at some match", factHits[f] > 0)
 	}
 	for k, v := range factHits {
